@@ -174,7 +174,7 @@ def run(tier: str) -> int:
     widths = [1, 2] if tier == "quick" else [1, 2, 3]
     funcs = harness_functions(widths)
     meta = {f[0]: f[2] for f in funcs}
-    per_cond = 25 if tier == "quick" else 90
+    per_cond = 120 if tier == "quick" else 600
     res, ch_cpu = chrun.run_functions([(f[0], f[1]) for f in funcs], PRELUDE, per_cond=per_cond, chunk=6)
     confirmed = 0
     for fn, (status, msg) in sorted(res.items()):
